@@ -28,9 +28,10 @@ ASSUMPTIONS = ["native-stack exhaustion on >= 10000 nested conditionals is a rec
                "memory bound checked: peak <= 1024 * input length + 4 MiB per call"]
 
 TEXT_DECODERS = ["wif", "privhex", "pubhex", "xprv", "xpub", "addr", "derhex", "asm", "template", "json_tx",
-                 "tx_hex", "txin_hex", "txout_hex", "script_hex", "cbor_tx_hex"]
+                 "tx_hex", "txin_hex", "txout_hex", "script_hex", "cbor_tx_hex", "cbor_txin_hex", "path_xprv", "path_xpub"]
 BYTE_DECODERS = ["tx", "txin", "txout", "outpoint", "script", "privbytes", "pub", "der", "compact", "sighashsig", "ecies",
-                 "cbor_tx", "cbor_txin", "verify_hashbuf", "sign_digest", "recover_digest", "compact_recover"]
+                 "cbor_tx", "cbor_txin", "verify_hashbuf", "sign_digest", "recover_digest", "compact_recover",
+                 "pubkey_hash", "seed_xprv", "seed_xpub", "chunks", "template_of_script", "interp_tx", "ecies_decrypt_msg"]
 SAMPLES = {"wif": "wif", "privhex": "privhex", "pub": "pub", "addr": "addr", "xprv": "xprv", "xpub": "xpub", "der": "der",
            "compact": "compact", "sighashsig": "sighashsig", "ecies": "ecies", "ecies_nopk": "ecies_nopk", "json_tx": "json_tx",
            "cbor_tx": "cbor_tx", "cbor_txin": "cbor_txin"}
@@ -226,6 +227,23 @@ def generate(rng, tier, pre):
             if r and s_:
                 sig = bytes([27 + (R[1] & 1) + 4]) + r.to_bytes(32, "big") + s_.to_bytes(32, "big")
                 cases.append(("dec.recover_msg2", [sig.hex(), msg.hex()]))
+    # 5c. lengths 0..70 for the fixed-length byte inputs, and derivation paths with extreme components
+    for n in range(0, 71 if not q else 45):
+        for dec in ("pubkey_hash", "privbytes", "outpoint", "seed_xprv"):
+            cases.append(("dec." + dec, ["l:%d:%d" % (n + 1, n)]))
+    for pth in ["m", "M", "m/", "m/0", "m/0'", "m/0h", "m/0H", "m/2147483647", "m/2147483648", "m/2147483647'", "m/2147483648'",
+                "m/4294967295", "m/4294967296", "m/18446744073709551616", "m/-1", "m/+1", "m/1/", "m//1", "m/1'/", "m/''", "m/'", "m/h",
+                "m/0x10", "m/1e3", "m/ 1", "m/1 ", "/", "", "m/" + "/".join(["1"] * 300), "m/" + "/".join(["0'"] * 260), "m/9" * 400]:
+        for dec in ("path_xprv", "path_xpub"):
+            cases.append(("dec." + dec, [pth.encode().hex()]))
+    for t in txs[:3]:
+        for idx in (0, 1, 2, 255, 4294967296, 18446744073709551615):
+            cases.append(("dec.interp_tx", [t.hex(), str(idx)]))
+    for name in ("ecies",):
+        for b in samples.get(name, [])[:3]:
+            add("ecies_decrypt_msg", b)
+            for m in list(mutations(rng, b, 6, 6))[:12]:
+                add("ecies_decrypt_msg", m)
     # 6. digests of every length 0..70
     for n in range(0, 71 if not q else 40):
         for dec in ("verify_hashbuf", "sign_digest", "recover_digest"):
